@@ -786,10 +786,10 @@ var c15Prop = &Prop[c15Case]{ID: "C15", Check: c15Check, Classify: c15Classify, 
 func init() { registerReplay(c15Prop) }
 
 func c15Gen(t *rapid.T) c15Case {
-	L := rapid.IntRange(20, 60).Draw(t, "L")
+	L := drawLen(t, 20, 60, "L")
 	c := c15Case{Cmd: rapid.SampledFrom([]string{"delete", "insert", "infix", "split", "rotate", "extract", "extract"}).Draw(t, "cmd"),
 		L: L, Circ: rapid.Bool().Draw(t, "circ"), Flag: rapid.IntRange(0, 2).Draw(t, "flag") == 0, Fasta: rapid.IntRange(0, 5).Draw(t, "fasta") == 0,
-		GuestLen: rapid.IntRange(1, 5).Draw(t, "guestlen"), Twice: rapid.IntRange(0, 2).Draw(t, "twice") == 0}
+		GuestLen: drawCount(t, 1, 5, 300, "guestlen"), Twice: rapid.IntRange(0, 2).Draw(t, "twice") == 0}
 	// 1..6 labelled features: overlapping, nested, unsorted, complement, joins (disjoint ascending parts)
 	n := rapid.IntRange(1, 6).Draw(t, "nfeat")
 	keys := []string{"gene", "CDS", "misc_feature", "gene"}
@@ -867,5 +867,9 @@ func TestC15(t *testing.T) {
 	e.done(true)
 	n := pick(1600, 32000) / shards()
 	rapidPart(t, c15Prop, st, "rapid", maxInt(n, 10), c15Gen)
+	if t.Failed() {
+		return
+	}
+	rapidLargePart(t, c15Prop, st, maxInt(pick(240, 4800)/shards(), 5), c15Gen)
 	st.note("%d gts executions in this shard", cliExecs)
 }
